@@ -4,43 +4,45 @@ CONSTANTS
   InitLog <- EmptyLog
   MaxSeq = 1
   Keys = {"user"}
-  Kinds = {"mut"}
+  Kinds = {}
   OldEvents = FALSE
   BadEvents = FALSE
   FoUuid <- Fo10
   Savers = {"p"}
   MaxSaves = 0
   MaxCrash = 0
-  MaxAcks = 1
+  MaxAcks = 0
   MaxGen = 4
-  MaxNotify = 1
-  MaxEnds = 2
+  MaxNotify = 2
+  MaxEnds = 0
   MaxFail = 0
   AutoReset = "earliest"
   Finite = FALSE
-  AutoCkpt = TRUE
+  AutoCkpt = FALSE
   Infos <- Infos2
   Info0 <- Info11
   EndCauses = {"socket", "statechanged", "ok"}
   Hold = FALSE
-  AllowClose = TRUE
+  AllowClose = FALSE
   Rollbacks = FALSE
   FailSaves = FALSE
   Focus = FALSE
   Record = FALSE
   ReadOnly = FALSE
   AckSplit = FALSE
-  HoldCb = FALSE
+  HoldCb = TRUE
   RM = FALSE
   Slots = 1
   RmUuids = {1, 2}
   RmMonotone = FALSE
   Scrapes = FALSE
   HookScrapes = FALSE
-  Marking = FALSE
+  Marking = TRUE
   WindAt = 0
   Gaps = {}
   Bugs = {}
+  Target = "@TARGET@"
+  DeathOK = @DEATHOK@
 VIEW view
-INVARIANTS C07 C16 C01 C02 C03 C04 C05 C06 C08 C11 C12 C13 C14 C15 StoreAgrees ReopenArmed
+INVARIANTS WitnessInv
 CHECK_DEADLOCK FALSE
